@@ -1,4 +1,5 @@
 import Snel.Lemmas.ShardCount
+import Snel.Lemmas.ShardIndexed
 /-!
 C01, durability in the aligned regime: in a single process lifetime without manual FLUSH the
 WAL log id and the level-0 segment id advance together, so `cleanup_up_to(segment_id + 1)`
@@ -10,7 +11,36 @@ namespace Snel.Shard
 /-- Entry `x` is in a log file with id `id`. -/
 def WalHas (s : Shard) (id : Nat) (x : Ev) : Prop := ∃ f ∈ s.wal, f.1 = id ∧ x ∈ f.2
 
-def InSeg (s : Shard) (x : Ev) : Prop := ∃ p ∈ s.segs, x ∈ p.2
+/-- Directory `d` is registered in the segment index (and will be served by a restart). -/
+def Reg (s : Shard) (d : Nat) : Prop := s.indexExists = true ∧ ∃ ent ∈ s.index, ent.1 = d
+
+/-- `x` is in a registered segment directory. -/
+def InSeg (s : Shard) (x : Ev) : Prop := ∃ p ∈ s.segs, x ∈ p.2 ∧ Reg s p.1
+
+theorem reg_of_eq {s t : Shard} (hi : t.index = s.index) (hx : t.indexExists = s.indexExists) {d : Nat}
+    (h : Reg s d) : Reg t d := by
+  unfold Reg at *; rw [hi, hx]; exact h
+
+theorem reg_served {s : Shard} {d : Nat} (h : Reg s d) : Served s d := fun _ => h.2
+
+theorem store_index_frame (s : Shard) (e : Ev) :
+    (store s e).index = s.index ∧ (store s e).indexExists = s.indexExists := by
+  have h1 := walAppend_index s e
+  have h2 := walAppend_indexExists s e
+  unfold store
+  simp only
+  split <;> simp [rotate, h1, h2]
+
+/-- Registering the head job's directory keeps every registration. -/
+theorem reg_after_register {s : Shard} (seg : Nat) (tys : List Nat) {d : Nat} (h : Reg s d) :
+    ∃ ent ∈ (loadIndex s).index.filter (fun ent => ent.1 != seg) ++ [(seg, tys)], ent.1 = d := by
+  obtain ⟨hex, ent, hent, he⟩ := h
+  rw [loadIndex_of_exists hex]
+  by_cases hd : d = seg
+  · exact ⟨(seg, tys), by simp, hd.symm⟩
+  · refine ⟨ent, ?_, he⟩
+    simp only [List.mem_append, List.mem_filter, List.mem_singleton]
+    exact Or.inl ⟨hent, by simpa [he] using hd⟩
 
 /-- Operations of the aligned regime. -/
 def Op.auto : Op → Bool
@@ -91,6 +121,8 @@ structure Aligned (s : Shard) : Prop where
   /-- every log entry is in the open log, belongs to the queued job of its log id, or is already
   in a segment directory -/
   entries : ∀ id x, WalHas s id x → id = s.walOpen ∨ (∃ j ∈ s.jobs, j.seg = id ∧ x ∈ j.evs) ∨ InSeg s x
+  /-- a job past the index step has its directory registered -/
+  registered : ∀ j ∈ s.jobs, 2 ≤ j.step → Reg s j.seg
 
 /-- What recovery needs (hypothesis of `restart_recovers`). -/
 def Durable (s : Shard) (x : Ev) : Prop := InSeg s x ∨ ∃ f ∈ s.wal, x ∈ f.2
@@ -129,9 +161,11 @@ theorem store_aligned {s : Shard} (e : Ev) (h : Inv s) (ha : Aligned s) :
   · obtain ⟨ewal, eopen, ecount, eorph, emem, ejobs, enext, esegs⟩ := store_rot e hlink ha.counts hrot
     have hw : ∀ i x, WalHas (store s e) i x ↔ ∃ f ∈ walPut s.wal s.walOpen e, f.1 = i ∧ x ∈ f.2 := by
       intro i x; unfold WalHas; rw [ewal]; exact walEnsure_entries
+    obtain ⟨eidx, eex⟩ := store_index_frame s e
+    have hreg : ∀ d, Reg s d → Reg (store s e) d := fun d hd => reg_of_eq eidx eex hd
     have hseg : ∀ x, InSeg s x → InSeg (store s e) x := by
-      intro x hx; unfold InSeg at *; rw [esegs]; exact hx
-    refine ⟨⟨eorph, by rw [eopen, enext, ha.ids], by rw [ecount, emem]; rfl, ?_, ?_, ?_, ?_⟩, ?_, ?_⟩
+      intro x hx; obtain ⟨p, hp, hpx, hr⟩ := hx; exact ⟨p, by rw [esegs]; exact hp, hpx, hreg _ hr⟩
+    refine ⟨⟨eorph, by rw [eopen, enext, ha.ids], by rw [ecount, emem]; rfl, ?_, ?_, ?_, ?_, ?_⟩, ?_, ?_⟩
     · -- ids of log files stay ≤ the open id
       intro f hf
       rw [ewal] at hf; rw [eopen]
@@ -185,6 +219,12 @@ theorem store_aligned {s : Shard} (e : Ev) (h : Inv s) (ha : Aligned s) :
         · exact Or.inr (Or.inr (hseg x h3))
       · refine Or.inr (Or.inl ⟨⟨s.nextL0, s.mem ++ [e], 0⟩, by simp, by simp [← hfi, hid, ha.ids], ?_⟩)
         simp [hxe]
+    · intro j hj hst
+      rw [ejobs] at hj
+      simp only [List.mem_append, List.mem_singleton] at hj
+      rcases hj with hj | rfl
+      · exact hreg _ (ha.registered j hj hst)
+      · simp at hst
     · obtain ⟨f, hf, _, hfe⟩ := walPut_new s.wal s.walOpen e
       exact Or.inr ⟨f, by rw [ewal]; exact mem_walEnsure hf, hfe⟩
     · intro x hx
@@ -193,9 +233,11 @@ theorem store_aligned {s : Shard} (e : Ev) (h : Inv s) (ha : Aligned s) :
       · obtain ⟨f', hf', _, hfx'⟩ := walPut_old (id := s.walOpen) (e := e) hf hfx
         exact Or.inr ⟨f', by rw [ewal]; exact mem_walEnsure hf', hfx'⟩
   · obtain ⟨ewal, eopen, ecount, eorph, emem, ejobs, enext, esegs⟩ := store_norot e hlink ha.counts hrot
+    obtain ⟨eidx, eex⟩ := store_index_frame s e
+    have hreg : ∀ d, Reg s d → Reg (store s e) d := fun d hd => reg_of_eq eidx eex hd
     have hseg : ∀ x, InSeg s x → InSeg (store s e) x := by
-      intro x hx; unfold InSeg at *; rw [esegs]; exact hx
-    refine ⟨⟨eorph, by rw [eopen, enext, ha.ids], by rw [ecount, emem, ha.counts]; simp, ?_, ?_, ?_, ?_⟩, ?_, ?_⟩
+      intro x hx; obtain ⟨p, hp, hpx, hr⟩ := hx; exact ⟨p, by rw [esegs]; exact hp, hpx, hreg _ hr⟩
+    refine ⟨⟨eorph, by rw [eopen, enext, ha.ids], by rw [ecount, emem, ha.counts]; simp, ?_, ?_, ?_, ?_, ?_⟩, ?_, ?_⟩
     · intro f hf
       rw [ewal] at hf; rw [eopen]
       unfold walPut at hf
@@ -228,6 +270,9 @@ theorem store_aligned {s : Shard} (e : Ev) (h : Inv s) (ha : Aligned s) :
         · exact Or.inr (Or.inl h2)
         · exact Or.inr (Or.inr (hseg x h3))
       · exact Or.inl (by rw [← hfi, hid])
+    · intro j hj hst
+      rw [ejobs] at hj
+      exact hreg _ (ha.registered j hj hst)
     · obtain ⟨f, hf, _, hfe⟩ := walPut_new s.wal s.walOpen e
       exact Or.inr ⟨f, by rw [ewal]; exact hf, hfe⟩
     · intro x hx
@@ -237,9 +282,9 @@ theorem store_aligned {s : Shard} (e : Ev) (h : Inv s) (ha : Aligned s) :
         exact Or.inr ⟨f', by rw [ewal]; exact hf', hfx'⟩
 
 
-theorem inSeg_of_written {s : Shard} {id : Nat} {x : Ev} (h : x ∈ segRows s id) : InSeg s x := by
-  obtain ⟨p, hp, _, hx⟩ := mem_segRows.mp h
-  exact ⟨p, hp, hx⟩
+theorem inSeg_of_written {s : Shard} {id : Nat} {x : Ev} (h : x ∈ segRows s id) (hr : Reg s id) : InSeg s x := by
+  obtain ⟨p, hp, hid, hx⟩ := mem_segRows.mp h
+  exact ⟨p, hp, hx, by rw [hid]; exact hr⟩
 
 theorem flushStep_aligned {s : Shard} (h : Inv s) (ha : Aligned s) :
     Aligned (flushStep s) ∧ ∀ x, Durable s x → Durable (flushStep s) x := by
@@ -259,11 +304,11 @@ theorem flushStep_aligned {s : Shard} (h : Inv s) (ha : Aligned s) :
     have keep : ∀ (t : Shard) (j' : Job), j'.seg = j.seg → j'.evs = j.evs →
         t.wal = s.wal → t.walOpen = s.walOpen → t.walOrphan = s.walOrphan → t.walCount = s.walCount →
         t.mem = s.mem → t.nextL0 = s.nextL0 → t.jobs = j' :: rest →
-        (∀ x, InSeg s x → InSeg t x) →
+        (∀ x, InSeg s x → InSeg t x) → (∀ d, Reg s d → Reg t d) → (2 ≤ j'.step → Reg t j.seg) →
         Aligned t ∧ ∀ x, Durable s x → Durable t x := by
-      intro t j' hseg hevs ewal eopen eorph ecount emem enext ejobs hsegs
+      intro t j' hseg hevs ewal eopen eorph ecount emem enext ejobs hsegs hregs hregj
       refine ⟨⟨by rw [eorph]; exact ha.linked, by rw [eopen, enext]; exact ha.ids,
-        by rw [ecount, emem]; exact ha.counts, by rw [ewal, eopen]; exact ha.idBound, ?_, ?_, ?_⟩, ?_⟩
+        by rw [ecount, emem]; exact ha.counts, by rw [ewal, eopen]; exact ha.idBound, ?_, ?_, ?_, ?_⟩, ?_⟩
       · intro x hx; rw [emem]; apply ha.openInMem
         unfold WalHas at hx ⊢; rw [ewal, eopen] at hx; exact hx
       · rw [ejobs]; simp only [List.map_cons, List.pairwise_cons, hseg]; exact hsorted
@@ -276,6 +321,12 @@ theorem flushStep_aligned {s : Shard} (h : Inv s) (ha : Aligned s) :
           · exact Or.inr (Or.inl ⟨j', by simp, by rw [hseg, hys], by rw [hevs]; exact hyx⟩)
           · exact Or.inr (Or.inl ⟨y, by simp [hy'], hys, hyx⟩)
         · exact Or.inr (Or.inr (hsegs x h3))
+      · intro y hy hst
+        rw [ejobs] at hy
+        simp only [List.mem_cons] at hy
+        rcases hy with rfl | hy
+        · rw [hseg]; exact hregj hst
+        · exact hregs _ (ha.registered y (hrest y hy) hst)
       · intro x hx
         rcases hx with hs | ⟨f, hf, hfx⟩
         · exact Or.inl (hsegs x hs)
@@ -284,7 +335,8 @@ theorem flushStep_aligned {s : Shard} (h : Inv s) (ha : Aligned s) :
     have pop : (∀ x ∈ j.evs, InSeg s x) →
         Aligned { s with jobs := rest } ∧ ∀ x, Durable s x → Durable { s with jobs := rest } x := by
       intro hin
-      refine ⟨⟨ha.linked, ha.ids, ha.counts, ha.idBound, ha.openInMem, hsorted.2, ?_⟩, fun _ hx => hx⟩
+      refine ⟨⟨ha.linked, ha.ids, ha.counts, ha.idBound, ha.openInMem, hsorted.2, ?_,
+        fun y hy hst => ha.registered y (hrest y hy) hst⟩, fun _ hx => hx⟩
       intro id x hx
       rcases ha.entries id x hx with h1 | ⟨y, hy, hys, hyx⟩ | h3
       · exact Or.inl h1
@@ -301,20 +353,37 @@ theorem flushStep_aligned {s : Shard} (h : Inv s) (ha : Aligned s) :
       | 0 =>
         simp only
         exact keep _ { j with step := 1 } rfl rfl rfl rfl rfl rfl rfl rfl rfl
-          (fun x hx => by obtain ⟨p, hp, hpx⟩ := hx; exact ⟨p, by simp [hp], hpx⟩)
-      | 1 => simp only; exact keep _ { j with step := 2 } rfl rfl rfl rfl rfl rfl rfl rfl rfl (fun _ hx => hx)
-      | 2 => simp only; exact keep _ { j with step := 3 } rfl rfl rfl rfl rfl rfl rfl rfl rfl (fun _ hx => hx)
-      | 3 => simp only; exact keep _ { j with step := 4 } rfl rfl rfl rfl rfl rfl rfl rfl rfl (fun _ hx => hx)
+          (fun x hx => by obtain ⟨p, hp, hpx, hr⟩ := hx; exact ⟨p, by simp [hp], hpx, hr⟩)
+          (fun _ hd => hd) (fun hc => by simp at hc)
+      | 1 =>
+        simp only
+        have hregs : ∀ d, Reg s d → Reg { s with
+            index := (loadIndex s).index.filter (fun ent => ent.1 != j.seg) ++ [(j.seg, typesOf j.evs)],
+            indexExists := true, jobs := { j with step := 2 } :: rest } d :=
+          fun d hd => ⟨rfl, reg_after_register j.seg (typesOf j.evs) hd⟩
+        exact keep _ { j with step := 2 } rfl rfl rfl rfl rfl rfl rfl rfl rfl
+          (fun x hx => by obtain ⟨p, hp, hpx, hr⟩ := hx; exact ⟨p, hp, hpx, hregs _ hr⟩)
+          hregs (fun _ => ⟨rfl, (j.seg, typesOf j.evs), by simp, rfl⟩)
+      | 2 =>
+        simp only
+        exact keep _ { j with step := 3 } rfl rfl rfl rfl rfl rfl rfl rfl rfl (fun _ hx => hx)
+          (fun _ hd => hd) (fun _ => ha.registered j hjmem (by omega))
+      | 3 =>
+        simp only
+        exact keep _ { j with step := 4 } rfl rfl rfl rfl rfl rfl rfl rfl rfl (fun _ hx => hx)
+          (fun _ hd => hd) (fun _ => ha.registered j hjmem (by omega))
       | 4 =>
         -- WAL cleanup: only logs with id ≤ j.seg go; their entries are in j's segment files
         simp only
         have hopen : ¬ s.walOpen < j.seg + 1 := by
           have := h.freshJ j hjmem; rw [← ha.ids] at this; omega
         have hwritten : ∀ x ∈ j.evs, InSeg s x := fun x hx =>
-          inSeg_of_written (h.written j hjmem (by omega) x hx)
+          inSeg_of_written (h.written j hjmem (by omega) x hx) (ha.registered j hjmem (by omega))
         have hsub : ∀ f, f ∈ (walClean s (j.seg + 1)).wal → f ∈ s.wal := by
           intro f hf; simp only [walClean, List.mem_filter] at hf; exact hf.1
-        refine ⟨⟨?_, ha.ids, ha.counts, ?_, ?_, ?_, ?_⟩, ?_⟩
+        have hregc : ∀ d, Reg s d → Reg { walClean s (j.seg + 1) with jobs := { j with step := 5 } :: rest } d :=
+          fun d hd => by simpa [Reg, walClean] using hd
+        refine ⟨⟨?_, ha.ids, ha.counts, ?_, ?_, ?_, ?_, ?_⟩, ?_⟩
         · simp only [walClean, ha.linked, Bool.false_or, Bool.and_eq_false_imp, decide_eq_true_eq]
           intro hc; exact absurd hc hopen
         · intro f hf; exact ha.idBound f (hsub f hf)
@@ -329,10 +398,15 @@ theorem flushStep_aligned {s : Shard} (h : Inv s) (ha : Aligned s) :
           · rcases hsplit y hy with rfl | hy'
             · exact Or.inr (Or.inl ⟨{ y with step := 5 }, by simp, hys, hyx⟩)
             · exact Or.inr (Or.inl ⟨y, by simp [hy'], hys, hyx⟩)
-          · exact Or.inr (Or.inr (by obtain ⟨p, hp, hpx⟩ := h3; exact ⟨p, by simpa [walClean] using hp, hpx⟩))
+          · exact Or.inr (Or.inr (by obtain ⟨p, hp, hpx, hr⟩ := h3; exact ⟨p, by simpa [walClean] using hp, hpx, hregc _ hr⟩))
+        · intro y hy hst
+          simp only [List.mem_cons] at hy
+          rcases hy with rfl | hy
+          · exact hregc _ (ha.registered j hjmem (by omega))
+          · exact hregc _ (ha.registered y (hrest y hy) hst)
         · intro x hx
           rcases hx with hs | ⟨f, hf, hfx⟩
-          · exact Or.inl (by obtain ⟨p, hp, hpx⟩ := hs; exact ⟨p, by simpa [walClean] using hp, hpx⟩)
+          · exact Or.inl (by obtain ⟨p, hp, hpx, hr⟩ := hs; exact ⟨p, by simpa [walClean] using hp, hpx, hregc _ hr⟩)
           · by_cases hdel : f.1 < j.seg + 1
             · -- the log is deleted: its entries are in segment files
               have hin : InSeg s x := by
@@ -342,11 +416,11 @@ theorem flushStep_aligned {s : Shard} (h : Inv s) (ha : Aligned s) :
                   · exact hwritten x hyx
                   · have := hlt y hy'; omega
                 · exact h3
-              exact Or.inl (by obtain ⟨p, hp, hpx⟩ := hin; exact ⟨p, by simpa [walClean] using hp, hpx⟩)
+              exact Or.inl (by obtain ⟨p, hp, hpx, hr⟩ := hin; exact ⟨p, by simpa [walClean] using hp, hpx, hregc _ hr⟩)
             · exact Or.inr ⟨f, by simp only [walClean, List.mem_filter]; exact ⟨hf, by simpa using hdel⟩, hfx⟩
       | k + 5 =>
         simp only
-        exact pop (fun x hx => inSeg_of_written (h.written j hjmem (by omega) x hx))
+        exact pop (fun x hx => inSeg_of_written (h.written j hjmem (by omega) x hx) (ha.registered j hjmem (by omega)))
 
 theorem drain_aligned (n : Nat) : ∀ {s : Shard}, Inv s → Aligned s →
     Aligned (drain n s) ∧ ∀ x, Durable s x → Durable (drain n s) x := by
